@@ -148,6 +148,18 @@ impl<T> VerifVec<T> {
     }
 }
 
+impl<T: Send + Sync> VerifVec<T> {
+    /// The parallel snapshot iterator the worker uses, collected on the current rayon pool:
+    /// its end and, in order, `(index, published?)` of everything it yields; `min_len` bounds how
+    /// far rayon may split (1 = down to single items).
+    pub fn par_snapshot_collect(&self, start: u32, min_len: usize) -> (u32, Vec<(u32, bool)>) {
+        use rayon::prelude::*;
+        let it = unsafe { self.0.par_snapshot(start) };
+        let end = it.end();
+        (end, it.with_min_len(min_len).map(|(idx, item)| (idx, item.is_some())).collect())
+    }
+}
+
 /// The crate-private cancellable parallel quicksort. Must be called on a rayon pool thread
 /// (`pool.install`) if a particular pool is to be used.
 pub fn verif_par_quicksort<T, F>(v: &mut [T], is_less: F, canceled: &AtomicBool) -> bool
